@@ -684,6 +684,13 @@ func init() {
 		st.pc = st.pc.and(And(ILe(g, v), ILe(v, g)))
 		return g
 	}
+	V["MutexHeld"] = func(c *Ctx, st *State, a []Value, site ssa.Instruction) Value {
+		held, _ := st.ghost[ghostKey(a[0], "held")].(*Term)
+		if held == nil {
+			return FalseT
+		}
+		return held
+	}
 	V["IsConcrete"] = func(c *Ctx, st *State, a []Value, site ssa.Instruction) Value {
 		t, ok := a[0].(IfaceV).V.(*Term)
 		return BoolC(ok && t.IsConst())
@@ -854,10 +861,10 @@ func (c *Ctx) mutexOp(st *State, p Pointer, lock bool, site ssa.Instruction) Val
 		held = FalseT
 	}
 	if lock {
-		c.addOb(st, "assert", "mutex not already held at Lock @"+c.posOf(site), c.posOf(site), Not(held))
+		c.addOb(st, "lock", "mutex not already held at Lock @"+c.posOf(site), c.posOf(site), Not(held))
 		st.ghost[k] = TrueT
 	} else {
-		c.addOb(st, "assert", "mutex held at Unlock @"+c.posOf(site), c.posOf(site), held)
+		c.addOb(st, "lock", "mutex held at Unlock @"+c.posOf(site), c.posOf(site), held)
 		st.ghost[k] = FalseT
 	}
 	return nil
